@@ -2082,10 +2082,24 @@ def upper_bound_from_guard(cn, t, vtxt):
     while r is not None and r.get("k") == "cast":
         r = r["e"]
     op = cn["op"]
-    if astq.estr(l) == vtxt and astq.const_value(cn["rhs"]) is not None:
-        K = astq.const_value(cn["rhs"])
-    elif astq.estr(r) == vtxt and astq.const_value(cn["lhs"]) is not None:
-        K = astq.const_value(cn["lhs"])
+
+    def var_plus_const(e):
+        """(offset) if e is `v` or `v + c` / `c + v` with a non-negative constant c"""
+        if e is None:
+            return None
+        if astq.estr(e) == vtxt:
+            return 0
+        if e.get("k") == "bin" and e.get("op") == "+":
+            for a_, b_ in ((e["lhs"], e["rhs"]), (e["rhs"], e["lhs"])):
+                while a_ is not None and a_.get("k") in ("cast", "paren"):
+                    a_ = a_["e"]
+                if a_ is not None and astq.estr(a_) == vtxt and astq.const_value(b_) is not None and astq.const_value(b_) >= 0:
+                    return astq.const_value(b_)
+        return None
+    if var_plus_const(l) is not None and astq.const_value(cn["rhs"]) is not None:
+        K = astq.const_value(cn["rhs"]) - var_plus_const(l)      # v + c < K  ==  v < K - c
+    elif var_plus_const(r) is not None and astq.const_value(cn["lhs"]) is not None:
+        K = astq.const_value(cn["lhs"]) - var_plus_const(r)
         op = {"<": ">", "<=": ">=", ">": "<", ">=": "<="}[op]      # K op v  ==  v op' K
     else:
         return None
